@@ -26,7 +26,8 @@ META = dict(
                "directories are implicit. Trusted: TLC, the JSON bridge, the projection of trees to records.",
 )
 
-WITNESSES = ("WitnessDirRename", "WitnessRealUnion", "WitnessSameAdd", "WitnessKind")
+WITNESSES = {"ids": ("WitnessDirRename", "WitnessRealUnion", "WitnessSameAdd", "WitnessKind"),
+             "paths": ("WitnessPathRename", "WitnessTwoUnions")}
 FULL = '{"a", "b", "d", "da"}'
 MERGE_TYPES = ("merge3", "weave", "lca")
 FMT = {"ids": "2a", "paths": "git"}
@@ -274,19 +275,39 @@ def _ops(edits, items=False):
     return "+".join(sorted((e["op"] + ":" + e["i"]) if items else e["op"] for e in edits)) or "-"
 
 
+def _generate(sub, configs):
+    """One TLC run per configuration (thorough: one per BASE x flavour, side by side)."""
+    out = sub.cov.setdefault("_collect", [])
+    for consts, wit in configs:
+        cases, _ = table_common.generate(sub, "MergeLawsGen", consts, witnesses=wit, workers=1 if len(configs) > 1 else 4,
+                                         timeout=1500, label="MergeLawsGen %s %s" % (consts["Bases"], consts["Flavours"]))
+        out.extend(cases)
+
+
 def run(ctx):
     env.init()
+    both = '{"ids", "paths"}'
     if ctx.quick:
-        consts = {"Bases": "{%s}" % FULL, "MaxSide": 2, "MaxPair": 1, "Flavours": '{"ids", "paths"}'}
+        consts = {"Bases": "{%s}" % FULL, "MaxSide": 2, "MaxPair": 1, "MaxSum": 2}
+        configs = [(dict(consts, Flavours=both, CrossCheck="FALSE"), WITNESSES["ids"] + WITNESSES["paths"])]
     else:
-        consts = {"Bases": '{%s, {"a", "b", "d"}, {"a", "b"}, {"d", "da"}}' % FULL, "MaxSide": 3, "MaxPair": 2,
-                  "Flavours": '{"ids", "paths"}'}
-    cases, _ = table_common.generate(ctx, "MergeLawsGen", consts, witnesses=WITNESSES + ("WitnessPathRename",), workers=8,
-                                     timeout=1500)
+        consts = {"Bases": '{%s, {"a", "b", "d"}, {"a", "b"}, {"d", "da"}}' % FULL, "MaxSide": 3, "MaxPair": 2, "MaxSum": 3}
+        configs = [(dict(consts, Bases="{%s}" % b, Flavours='{"%s"}' % fl, CrossCheck="FALSE"),
+                    WITNESSES[fl] if b == FULL else ())
+                   for b in (FULL, '{"a", "b", "d"}', '{"a", "b"}', '{"d", "da"}') for fl in ("ids", "paths")]
+        # the constructive enumeration of the generator against brute force over all pairs of edit sets (small bounds)
+        table_common.generate(ctx, "MergeLawsGen", {"Bases": "{%s}" % FULL, "MaxSide": 2, "MaxPair": 1, "MaxSum": 2,
+                                                    "Flavours": both, "CrossCheck": "TRUE"}, workers=4, timeout=1500,
+                              label="MergeLawsGen cross-check against brute force")
+    core.fork_map(ctx, _generate, [[k] for k in configs], chunks_per_proc=len(configs))
+    cases = list(ctx.collected)
+    del ctx.collected[:]
+    if not cases:
+        ctx.machinery("generator exported no cases")
     total = len(cases)
     cases.sort(key=lambda c: (c["law"], c["fl"], c["base"], _ops(c["dT"], True), _ops(c["dO"], True)))
     jobs = []
-    per_law = 70 if ctx.quick else 1400
+    per_law = 50 if ctx.quick else 700
     for law in ("L1", "L2", "L3", "L4"):
         for fl in ("ids", "paths"):
             pool = [c for c in cases if c["law"] == law and c["fl"] == fl]
